@@ -268,8 +268,8 @@ def bounded_native(ck):
                                   "input": {"function": nm + "." + fname, "batch": [repr(float(x)) for x in batch], "element": j}, "observed": {"batch": repr(float(got[j])) if got.shape == want.shape else str(got.shape), "scalar": repr(float(want[j]))}})
         # inputs that are not float64: python / numpy integers, float32 (the cloud maps' type), integer arrays, 2-D arrays
         for mod, nm in ((PR, n1), (AM, n2)):
-            for fname, vals in (("us_std_atm_altitude_from_pressure", (101325, 50000, 22632, 1, np.int64(5474), np.int32(868), np.float32(30000.0), np.array([101325, 50000, 1000]), np.array([[80000.0, 20000.0], [500.0, 3.0]], dtype=np.float32))),
-                                ("us_std_atm_pressure_from_altitude", (0, 5, 11, 20, np.int64(32), np.float32(12.5), np.array([0, 7, 25, 60]), np.array([[1.0, 15.0], [40.0, 80.0]], dtype=np.float32)))):
+            for fname, vals in (("us_std_atm_altitude_from_pressure", (101325, 50000, 22632, 1, np.int64(5474), np.int32(868), np.uint16(110), np.float32(30000.0), np.array([101325, 50000, 1000]), np.array([101325, 868], dtype=np.int32), np.array([[80000.0, 20000.0], [500.0, 3.0]], dtype=np.float32))),
+                                ("us_std_atm_pressure_from_altitude", (0, 5, 11, 20, np.int64(32), np.int32(47), np.int16(51), np.uint8(71), np.float32(12.5), np.array([0, 7, 25, 60]), np.array([0, 7, 25, 60], dtype=np.int32), np.array([3, 86], dtype=np.uint16), np.array([[1.0, 15.0], [40.0, 80.0]], dtype=np.float32)))):
                 f = getattr(mod, fname)
                 for x in vals:
                     n += 1
